@@ -127,9 +127,24 @@ BracketAtTestErr(w, s, tl) ==
         THEN "C05:test-without-bracket" ELSE "C05:testSetUp-outside-stack")
   ELSE ""
 
+(* The testSetUp calls seen so far may belong to two brackets: first those of *)
+(* a test that ran no code (decorator skip) in a layer that was switched to   *)
+(* without an observable event and owes no testTearDown, then those of this   *)
+(* test.  Split(w, s, tl) = number of leading calls that form such a ghost    *)
+(* bracket (0: none).                                                         *)
+Split(w, s, tl) ==
+  LET need == PerUpClosure(w, tl)
+      ks == {k \in 1..Len(s.br) :
+               /\ {s.br[j] : j \in (k + 1)..Len(s.br)} = need
+               /\ \A j \in 1..k : ~w.perDown[s.br[j]] /\ s.br[j] \notin need}
+  IN IF s.ph = "opening" /\ SeqSet(s.br) # need /\ ks # {} THEN CHOOSE k \in ks : TRUE ELSE 0
+
 BrTest(w, s, tl) ==
   LET ce == IF Used(s) THEN BracketClosedErr(w, s) ELSE ""
-      s1 == IF Used(s) THEN BracketNew(s) ELSE s
+      s0 == IF Used(s) THEN BracketNew(s) ELSE s
+      k == Split(w, s0, tl)
+      s1 == IF k = 0 THEN s0
+            ELSE [s0 EXCEPT !.br = SubSeq(s0.br, k + 1, Len(s0.br)), !.ghosts = @ + 1]
   IN <<IF ce # "" THEN ce ELSE BracketAtTestErr(w, s1, tl),
        [s1 EXCEPT !.tl = tl, !.ph = "running"]>>
 
@@ -157,8 +172,9 @@ TestTearDownErr(w, s, l) ==
 (* without an observable event: a layer whose only hook is testTearDown),    *)
 (* opens the bracket of a test that ran no code (decorator skip).            *)
 BrTestTearDown(w, s, l) ==
-  LET again == /\ s.ph = "closing" /\ BracketClosedErr(w, s) = ""
-               /\ (l \in SeqSet(s.td) \/ (s.tl # NoLayer /\ l \notin ExpectDown(w, s)))
+  LET again == /\ s.ph \in {"closing", "running"} /\ BracketClosedErr(w, s) = ""
+               /\ \/ (s.ph = "closing" /\ l \in SeqSet(s.td))
+                  \/ (s.tl # NoLayer /\ l \notin ExpectDown(w, s))
       s1 == IF again \/ s.ph = "idle" THEN BracketNew(s) ELSE s
   IN <<TestTearDownErr(w, s1, l),
        [s1 EXCEPT !.td = Append(s1.td, l), !.ph = "closing"]>>
